@@ -14,7 +14,8 @@ RULE = ("every valid base description (networks, circuits, component constructor
         "every pair, foreign reference node, second ground at every insertion point, each sign-checked parameter negative "
         "with three magnitudes, unknown type, unknown waveform, each required field missing), plus the boundary twin (value "
         "exactly 0, must be accepted), plus unknown element/node queries against every solution kind; thorough adds every pair of faults of one class in the loader descriptions; a case is distinct by "
-        "(base, fault class, position, value); non-trivial = a case with an injected fault or an unknown-id query")
+        "(base, fault class, position, value); non-trivial = a case with an injected fault or an unknown-id query"
+        ' Additions: load reference faults for six rated powers.')
 ASSUMPTIONS = ["exception types are recorded, not constrained (the statement only says 'rejected with an exception')",
                "sign rules are anchored at the component constructors and loaders, the reference-node rule at Network, ground/duplicate rules at Circuit"]
 EXPLANATION = "exhaustive single-fault injection over positions on the real constructors and loaders"
